@@ -60,7 +60,20 @@ ASSUMPTIONS = ["listen addresses are registered before addresses are learned (re
                "PeerState beyond Disconnected/Opening/Dialing is outside this property (C05)"]
 KEEP_PREFIX = 1
 
-MAXA = 64
+
+
+def _max_addresses():
+    """MAX_ADDRESSES of the tree under test (the oracle judges the bound the code declares)."""
+    import os
+    repo = os.environ.get("VERIF_REPO", os.path.normpath(os.path.join(os.path.dirname(os.path.abspath(__file__)), "..", "..", "repo")))
+    try:
+        m = re.search(CONST_TABLE[0][2], open(os.path.join(repo, _A)).read())
+        return int(m.group(1).replace("_", ""))
+    except Exception:
+        return 64
+
+
+MAXA = _max_addresses()
 I32_MAX, I32_MIN = 2**31 - 1, -2**31
 
 IP4 = ["0.0.0.0", "127.0.0.1", "127.0.0.2", "10.0.0.1", "192.168.1.7", "172.16.0.9", "8.8.8.8", "1.2.3.4",
